@@ -1,6 +1,6 @@
 """C24 Only fresh, well-formed, in-band oracle prices are used.
 Spec: OracleValidate.tla (validate_one / merge_range / finish / SmallPrices::from_price / price adjustment /
-check_and_get_price / with_prices_opts, written like the code), OracleValidateProps.tla (monitors),
+check_and_get_price / with_prices_opts / the oracle time validators of time.rs, written like the code), OracleValidateProps.tla (monitors),
 MC_OracleValidate (bounded model, three families), Trace_OracleValidate (TLC trace validation of the real code
 driven in memory through cfg-guarded hooks, including Oracle::with_prices_opts end to end on in-memory accounts)."""
 import vlib
@@ -112,7 +112,7 @@ def run(ctx):
     ctx.build("h-programs", "c24")
     q = ctx.quick
     # 1. the design satisfies the monitors (three families of the bounded model)
-    for cfg in ("MC_OracleValidate_time", "MC_OracleValidate_price",
+    for cfg in ("MC_OracleValidate_time", "MC_OracleValidate_price", "MC_OracleValidate_tv",
                 "MC_OracleValidate_with_quick" if q else "MC_OracleValidate_with"):
         mc(ctx, "MC_OracleValidate", cfg)
     # 2. validator pieces on the real code: the model's domain, then random larger values
@@ -120,6 +120,7 @@ def run(ctx):
     evs = []
     for name, args in (("batch-small", ["small", "--kind", "batch"]),
                        ("batch-random", ["random", "--kind", "batch", "--seed", ctx.seed, "--n", 4000 if q else 60000]),
+                       ("with-tv", ["small", "--kind", "with"]),
                        ("with", ["random", "--kind", "with", "--seed", ctx.seed, "--n", 6000 if q else 80000])):
         tr = ctx.path(name + ".ndjson")
         ctx.run_bin("c24", args + ["--out", tr])
@@ -131,11 +132,21 @@ def run(ctx):
     if acc == 0:
         if not ctx.violations:
             raise vlib.ToolError("vacuity: no accepted price in the validated traces")
-    wp = evs[2]
+    wp = evs[2] + evs[3]
     cls = {"cleared_after_ok": sum(1 for e in wp if e["called"] and e["res"] == "ok"),
            "cleared_after_op_error": sum(1 for e in wp if e["called"] and e["res"] == "err"),
            "cleared_after_load_error": sum(1 for e in wp if not e["called"]),
-           "dirty_before": sum(1 for e in wp if not e["pre"]["cleared"] or e["pre"]["n"] != 0)}
+           "dirty_before": sum(1 for e in wp if not e["pre"]["cleared"] or e["pre"]["n"] != 0),
+           # oracle time validation (time.rs) inside the wrapped operation
+           "time_accepted_with_lower_bound": sum(1 for e in wp if e["vt"] == "" and e["tgt"]["after"]["some"]),
+           "time_too_old": sum(1 for e in wp if e["vt"] == "OracleTimestampsAreSmallerThanRequired"),
+           "time_too_new": sum(1 for e in wp if e["vt"] == "OracleTimestampsAreLargerThanRequired"),
+           "time_slot_rejected": sum(1 for e in wp if e["vt"] == "InvalidOracleSlot"),
+           "time_bound_straddled": sum(1 for e in wp if e["called"] and e["tgt"]["after"]["some"] and
+                                       e["srs"]["lo"] < e["tgt"]["after"]["v"] <= e["srs"]["hi"]),
+           "max_age_accepted": sum(1 for e in wp if e["vma"] == ""),
+           "max_age_straddled": sum(1 for e in wp if e["called"] and
+                                    e["srs"]["lo"] < e["vs"]["now"] - e["max_age"] <= e["srs"]["hi"])}
     for k, v in cls.items():
         if v == 0:
             if not ctx.violations:
@@ -150,5 +161,5 @@ def run(ctx):
                                 "cfg-guarded hooks in states/oracle/{mod,validator,price_map,feed}.rs (thin wrappers)"]
     return ctx.finish("model_checking",
                       "validator batches over the bounded model's time and price families (%d) + random batches (%d) + "
-                      "with_prices_opts runs on in-memory accounts (%d); distinct = distinct events"
-                      % (len(evs[0]), len(evs[1]), len(evs[2])), exhaustive=False)
+                      "with_prices_opts runs on in-memory accounts incl. oracle time validation (%d enumerated + %d random); "
+                      "distinct = distinct events" % (len(evs[0]), len(evs[1]), len(evs[2]), len(evs[3])), exhaustive=False)
